@@ -79,6 +79,8 @@ def _work_rand(args):
             for _ in range(8):
                 ortho = rng.random() < 0.6
                 edges = rng.uniform(0.5, 20, 3)
+                if rng.random() < 0.25:
+                    edges = rng.choice([0.5, 0.6, 16.0, 20.0], 3)        # needles and slabs: corners of the edge range
                 B0 = np.diag(edges)
                 if not ortho:
                     B0[1, 0] = rng.uniform(-0.3, 0.3) * edges[0]
